@@ -39,6 +39,7 @@ VALUE_CTORS = [("Null", [], {"Null"}), ("VBool", ["bool"], {"Bool", "Boolean"}),
 def ty_of_tokens(toks, self_ty=None):
     """Rust type tokens -> internal type"""
     t = [x for x in toks if not x.startswith("'")]
+    if t[:2] == ["&", "String"] and len(t) == 2: return "str"          # a borrowed String is a borrowed text (Into<Cow> gives Cow::Borrowed)
     mref = False
     while t and t[0] in ("&", "mut", "&&", "dyn"):
         if t[0] == "mut": mref = True
@@ -159,6 +160,7 @@ class Ctx:
         self.lens = False
         self.mod = None
         self.poison = frozenset()   # lens-mode: reference variables that may be stale on the current control-flow path
+        self.call_map = {}          # per-target: path call -> key of the generated function it dispatches to (trait dispatch on Self)
         self.closure_k = None       # continuation of the innermost inlined closure (`?` / return inside it leave the closure)
         self.loops = []             # stack of (break_code_fn, continue_code_fn)
 
@@ -948,6 +950,10 @@ class Emitter:
         if name in ("core::mem::take", "mem::take", "std::mem::take") and len(args) == 1 and place_var(args[0]) in env and is_str(env[place_var(args[0])][1]):
             x = place_var(args[0]); old_ = cx.fresh("old")
             return f"let {old_} := {x} in let {x} := [] in {k(old_, env[x][1])}"
+        if name in ("serde_json::Value::String", "Value::String", "toml::Value::String") and len(args) == 1:
+            return self.tr(args[0], env, cx, lambda t, ty: k(f"(VStr {self.coerce(t, ty, 'str')})", ("named", "Value")))
+        if name in cx.call_map:
+            return self.call_generated(cx.call_map[name], [], args, env, cx, k)
         if name in ("Value::Array", "Value::Object", "Value::Table", "toml::Value::Array", "toml::Value::Table") and len(args) == 1:
             c = "Arr" if name.endswith("Array") else "Obj"
             return self.tr(args[0], env, cx, lambda t, ty: k(f"({c} {t})", ("named", "Value")))
@@ -1589,7 +1595,7 @@ def translate(repo, groups, types, fuel):
                 entry["status"] = "parse-error"; entry["error"] = it["errors"].get(key, "?")
                 continue
             try:
-                self_ty = t.get("self_ty", impl)
+                self_ty = t.get("self_alias") or t.get("self_ty", impl)      # what `Self` means inside the body
                 self_t = t.get("self_type", ("named", self_ty))
                 ret_ty = t.get("ret") or (ty_of_tokens(ret, self_ty) if ret else "unit")
                 env, binders, ptys = {}, [], []
@@ -1610,6 +1616,7 @@ def translate(repo, groups, types, fuel):
                 cx.skip_lets = set(t.get("skip_lets", []))
                 cx.mut_self = mut_self or lens
                 cx.mod = t.get("mod")
+                cx.call_map = {k_: tuple(v_) for k_, v_ in t.get("calls", {}).items()}
                 if lens:
                     refs = [v for v in env if has_ref(env[v][1])]
                     if len(refs) != 1: raise RsError("a lens-mode function must take exactly one reference into the document")
@@ -1803,6 +1810,42 @@ CONFIG = {
         ]),
         # the walks that MUTATE a document through `&mut` references, translated in lens mode: a reference is the pair
         # (content, write-back into the document) of GenTreePrelude.lens; each function returns (document afterwards, result)
+        # conversions between the pointer types and text (C18): each must hand the text on unchanged / accept exactly the valid texts
+        ("Conv", [
+            {"file": "src/pointer.rs", "impl": "Pointer", "name": "parse", "coq": "gen_Pointer_parse", "param_types": {"s": "str"},
+             "ret": ("res", ("named", "Pointer"), ("named", "ParseError"))},
+            {"file": "src/pointer.rs", "impl": "Pointer", "name": "as_str", "coq": "gen_Pointer_as_str"},
+            {"file": "src/pointer.rs", "impl": "Pointer", "trait_exact": "ToOwned", "name": "to_owned", "coq": "gen_Pointer_to_owned", "self_ty": "PointerToOwned",
+             "self_type": ("named", "Pointer"), "ret": ("named", "PointerBuf")},
+            {"file": "src/pointer.rs", "impl": "Pointer", "trait_exact": "AsRef<str>", "name": "as_ref", "coq": "gen_Pointer_as_ref_str", "self_ty": "PointerAsRefStr",
+             "self_type": ("named", "Pointer")},
+            {"file": "src/pointer.rs", "impl": "Pointer", "trait_exact": "Borrow<str>", "name": "borrow", "coq": "gen_Pointer_borrow_str", "self_ty": "PointerBorrowStr",
+             "self_type": ("named", "Pointer")},
+            {"file": "src/pointer.rs", "impl": "Pointer", "trait_exact": "AsRef<[u8]>", "name": "as_ref", "coq": "gen_Pointer_as_ref_bytes", "self_ty": "PointerAsRefBytes",
+             "self_type": ("named", "Pointer")},
+            {"file": "src/pointer.rs", "impl": "Pointer", "trait_exact": "AsRef<Pointer>", "name": "as_ref", "coq": "gen_Pointer_as_ref_Pointer", "self_ty": "PointerAsRefPointer",
+             "self_type": ("named", "Pointer")},
+            {"file": "src/pointer.rs", "impl": "PointerBuf", "trait_exact": "AsRef<Pointer>", "name": "as_ref", "coq": "gen_PointerBuf_as_ref_Pointer", "self_ty": "BufAsRefPointer",
+             "self_type": ("named", "PointerBuf"), "ret": ("named", "Pointer")},
+            {"file": "src/pointer.rs", "impl": "PointerBuf", "name": "as_ptr", "coq": "gen_PointerBuf_as_ptr"},
+            {"file": "src/pointer.rs", "impl": "PointerBuf", "trait_exact": "Borrow<Pointer>", "name": "borrow", "coq": "gen_PointerBuf_borrow_Pointer", "self_ty": "BufBorrowPointer",
+             "self_type": ("named", "PointerBuf"), "ret": ("named", "Pointer")},
+            {"file": "src/pointer.rs", "impl": "PointerBuf", "trait_exact": "Deref", "name": "deref", "coq": "gen_PointerBuf_deref", "self_ty": "BufDeref",
+             "self_type": ("named", "PointerBuf"), "ret": ("named", "Pointer")},
+            {"file": "src/pointer.rs", "impl": "Pointer", "name": "to_json_value", "coq": "gen_Pointer_to_json_value", "ret": ("named", "Value")},
+            {"file": "src/pointer.rs", "impl": "PointerBuf", "name": "new", "coq": "gen_PointerBuf_new"},
+            {"file": "src/pointer.rs", "impl": "PointerBuf", "name": "root", "coq": "gen_PointerBuf_root"},
+            {"file": "src/pointer.rs", "impl": "PointerBuf", "trait_exact": "TryFrom<String>", "name": "try_from", "coq": "gen_PointerBuf_try_from_String", "self_ty": "BufTryFromString", "self_alias": "PointerBuf",
+             "ret": ("res", ("named", "PointerBuf"), ("named", "ParseError"))},
+            {"file": "src/pointer.rs", "impl": "PointerBuf", "trait_exact": "TryFrom<&str>", "name": "try_from", "coq": "gen_PointerBuf_try_from_str", "self_ty": "BufTryFromStr", "self_alias": "PointerBuf",
+             "ret": ("res", ("named", "PointerBuf"), ("named", "ParseError"))},
+            {"file": "src/pointer.rs", "impl": "PointerBuf", "trait_exact": "FromStr", "name": "from_str", "coq": "gen_PointerBuf_from_str", "self_ty": "BufFromStr", "self_alias": "PointerBuf", "calls": {"Self::try_from": ("BufTryFromStr", "try_from")},
+             "ret": ("res", ("named", "PointerBuf"), ("named", "ParseError"))},
+            {"file": "src/token.rs", "impl": "Token", "trait_exact": "From<&'astr>", "name": "from", "coq": "gen_Token_from_str", "self_ty": "TokenFromStr", "self_alias": "Token"},
+            {"file": "src/token.rs", "impl": "Token", "trait_exact": "From<&'aString>", "name": "from", "coq": "gen_Token_from_ref_String", "self_ty": "TokenFromRefString", "self_alias": "Token"},
+            {"file": "src/token.rs", "impl": "Token", "trait_exact": "From<String>", "name": "from", "coq": "gen_Token_from_String", "self_ty": "TokenFromString", "self_alias": "Token"},
+            {"file": "src/token.rs", "impl": "Token", "trait_exact": "From<&Token<'a>>", "name": "from", "coq": "gen_Token_from_ref_Token", "self_ty": "TokenFromRefToken", "self_alias": "Token"},
+        ]),
         # all hand-written mixed comparisons (C17): discovered, not listed, so a new one is translated too
         ("Cmp", "auto:cmp"),
         ("TreeMut", [
@@ -1829,7 +1872,7 @@ CONFIG = {
         ]),
     ],
     # which earlier groups a group's functions call (imports of the generated file)
-    "deps": {"Cmp": ["=Value"], "PtrOps": ["Token"], "TreeMut": ["Token", "PtrOps", "Slice", "Index", "=GenTreePrelude", "Tree"], "Slice": ["PtrOps"], "Buf": ["Token", "PtrOps"], "PtrBuild": ["Token", "PtrOps", "Buf"], "Index": ["Token", "=GenTreePrelude"], "Tree": ["Token", "PtrOps", "Slice", "Index", "=GenTreePrelude"]},
+    "deps": {"Conv": ["Pointer", "Token", "PtrOps", "Buf", "PtrBuild", "=Value"], "Cmp": ["=Value"], "PtrOps": ["Token"], "TreeMut": ["Token", "PtrOps", "Slice", "Index", "=GenTreePrelude", "Tree"], "Slice": ["PtrOps"], "Buf": ["Token", "PtrOps"], "PtrBuild": ["Token", "PtrOps", "Buf"], "Index": ["Token", "=GenTreePrelude"], "Tree": ["Token", "PtrOps", "Slice", "Index", "=GenTreePrelude"]},
     # fuel for `while` loops: (generated function, nesting depth) -> Gallina term over the parameters
     "fuel": {("gen_validate_bytes", 0): "S (length bytes)",
              ("gen_json_resolve", 0): "S (length ptr)", ("gen_json_resolve_mut", 0): "S (length ptr)",
